@@ -498,7 +498,7 @@ func (doc *T) derefPaths(paths map[string]*PathItem, refNameResolver RefNameReso
 
 		for _, param := range ops.Parameters {
 			isExternal := doc.addParameterToSpec(param, refNameResolver, pathIsExternal)
-			if param.Value != nil {
+			if param != nil && param.Value != nil {
 				doc.derefParameter(*param.Value, refNameResolver, pathIsExternal || isExternal)
 			}
 		}
@@ -513,7 +513,7 @@ func (doc *T) derefPaths(paths map[string]*PathItem, refNameResolver RefNameReso
 			for _, name := range componentNames(op.Callbacks) {
 				cb := op.Callbacks[name]
 				isExternal := doc.addCallbackToSpec(cb, refNameResolver, pathIsExternal)
-				if cb.Value != nil {
+				if cb != nil && cb.Value != nil {
 					cbValue := (*cb.Value).Map()
 					doc.derefPaths(cbValue, refNameResolver, pathIsExternal || isExternal)
 				}
@@ -521,7 +521,7 @@ func (doc *T) derefPaths(paths map[string]*PathItem, refNameResolver RefNameReso
 			doc.derefResponses(op.Responses, refNameResolver, pathIsExternal)
 			for _, param := range op.Parameters {
 				isExternal := doc.addParameterToSpec(param, refNameResolver, pathIsExternal)
-				if param.Value != nil {
+				if param != nil && param.Value != nil {
 					doc.derefParameter(*param.Value, refNameResolver, pathIsExternal || isExternal)
 				}
 			}
